@@ -2,7 +2,10 @@
 (* Scenario generator of property C20: behaviours of Bounded (the environment's choices: duty        *)
 (* patterns incl. epochs without duties, head events, their absence for whole epochs, reorgs that    *)
 (* refresh - and so may withdraw - scheduled duties, also while an attestation job is running and   *)
-(* with the node's answer arriving late, node outages, aggregation or not) with a                   *)
+(* with the node's answer arriving late, node outages, aggregation or not; sync committee message  *)
+(* jobs, auctions, subscriptions and attestation jobs whose answer the node keeps back for k slots  *)
+(* - up to several epochs - while the calls of later slots run, so that calls complete out of slot  *)
+(* order on the one set of service instances) with a                                                *)
 (* history variable.  A behaviour is printed when the clock has reached MaxSlot and the last slot's *)
 (* jobs have run.  TLC runs it in simulation mode (seeded); the Go drivers replay the steps on the  *)
 (* real services.                                                                                   *)
@@ -27,7 +30,9 @@ SNext ==
     /\ ~fin
     /\ \/ \E d0, d1 \in AllDuties : NStart(d0, d1) /\ H([ev |-> "Start", d0 |-> d0, d1 |-> d1])
        \/ NTick /\ H([ev |-> "Tick"])
-       \/ \E d \in AllDuties : NPrepare(d) /\ H([ev |-> "Prepare", e |-> E0 + 1, d |-> d])
+       \/ \E d \in AllDuties : \E k \in SubLates :
+            NPrepare(d, k) /\ H([ev |-> "Prepare", e |-> E0 + 1, d |-> d, k |-> k])
+       \/ \E r \in env.subdue : NSubEnd(r) /\ H([ev |-> "SubEnd", e |-> r.s])
        \/ \E F \in SUBSET {E0, E0 + 1} : \E d0, d1 \in AllDuties : \E split \in BOOLEAN :
             /\ NHead(F, d0, d1, split)
             /\ (Focus /\ E0 \in F) => (\E s \in running : Epoch(s) = E0)
@@ -36,14 +41,16 @@ SNext ==
                   r |-> (IF E0 \in F THEN <<E0>> ELSE <<>>) \o (IF (E0 + 1) \in F THEN <<E0 + 1>> ELSE <<>>),
                   dm |-> (IF E0 \in F THEN <<d0>> ELSE <<>>) \o (IF (E0 + 1) \in F THEN <<d1>> ELSE <<>>)])
        \/ \E r \in env.refr : NResched(r) /\ H([ev |-> "Resched", e |-> r.e])
-       \/ \E ok \in BOOLEAN : NAttStart(ok) /\ H([ev |-> "AttStart", s |-> now, ok |-> ok])
+       \/ \E ok \in BOOLEAN : \E k \in AttLates : NAttStart(ok, k) /\ H([ev |-> "AttStart", s |-> now, ok |-> ok, k |-> k])
        \/ \E s \in running : NAttEnd(s) /\ H([ev |-> "AttEnd", s |-> s])
-       \/ NProbe /\ hist[Len(hist)].ev # "Probe" /\ H([ev |-> "Probe"])
-       \/ \E ok \in BOOLEAN : NSyncMsg(ok) /\ H([ev |-> "SyncMsg", s |-> now, ok |-> ok])
-       \/ NSyncAgg /\ H([ev |-> "SyncAgg", s |-> now])
+       \/ NProbe /\ hist[Len(hist)].ev # "Probe" /\ (running \ AttHeld) # {} /\ H([ev |-> "Probe"])
+       \/ \E k \in MsgLates : NMsgStart(k) /\ H([ev |-> "MsgStart", s |-> now, k |-> k])
+       \/ \E r \in env.msgdue : \E ok \in BOOLEAN : NMsgEnd(r, ok) /\ H([ev |-> "MsgEnd", s |-> r.s, ok |-> ok])
+       \/ \E s \in env.aggdue : NSyncAgg(s) /\ H([ev |-> "SyncAgg", s |-> s])
        \/ NAdvance /\ H([ev |-> "Advance"])
-       \/ NAuction /\ H([ev |-> "Auction", s |-> now])
-       \/ /\ now = MaxSlot /\ (env.fam # "bids" => up /\ SlotDone /\ running = {})
+       \/ \E k \in AucLates : NAucStart(k) /\ H([ev |-> "AucStart", s |-> now, k |-> k])
+       \/ \E r \in env.aucdue : NAucEnd(r) /\ H([ev |-> "AucEnd", s |-> r.s])
+       \/ /\ now = MaxSlot /\ (env.fam # "bids" => up /\ SlotDone) /\ AtRest
           /\ fin' = TRUE
           /\ UNCHANGED <<vars, hist>>
 
